@@ -44,6 +44,7 @@ var XMLStreamPreds = []string{
 	"[a/@k='1']", "[*/@k='1']", "[.//c]", "[.//a]", "[not(.//a)]", "[.//@k='1']", "[.//b='x']",
 	"[text()='x']", "[text()]", "[not(text())]",
 	"[b[@k='1']]", "[b[c]]", "[a[.='x']]",
+	"[*[@k='1']]", "[a[b]]", "[count(b[c])>0]", "[not(b[@k='1'])]", "[a[@k='0' and b]]", "[*[*]]", "[b[@k=\"1\"]]", "[a[not(*)]]",
 	"[@k='1' and b]", "[@k='1' or b]", "[a and not(b)]", "[@k='1' or .='x']",
 	"[@k='1' or b='x']", "[@k='0' and b='x']", "[@k='0' and .='x']", "[@k='1' and .='x']", "[@k='0' or a]", "[@k='0' or .='x']", "[@k='0' or .//c]",
 	"[@k='1' and not(b)]", "[@k!='0' or count(*)>1]",
@@ -59,7 +60,7 @@ var JSONStreamPreds = []string{
 	"[contains(.,'x')]", "[contains(.,'1')]", "[starts-with(.,'x')]", "[string-length(.)>1]",
 	"[.//c]", "[.//a]", "[not(.//a)]", "[.//b='x']", "[.//*='x']",
 	"[*='x']", "[*/*]",
-	"[b[c]]", "[a[.='x']]", "[*[a]]",
+	"[b[c]]", "[a[.='x']]", "[*[a]]", "[*[*]]", "[a[b]]", "[count(*[a])>0]", "[not(b[c])]", "[a[not(*)]]",
 	"[b and a]", "[a or c]", "[a and not(b)]", "[a='1' or .='x']",
 	"[.!=']']", "[text()]", "[not(text())]",
 }
